@@ -397,7 +397,7 @@ def leafConv (isInt : Bool) : PyVal → AsArr
   | .float f =>
     if isInt then
       match f with
-      | .fin q => if inI64 (truncQ q) then .ok [] [.fin (truncQ q)] else .raises  -- K2: `int(x)` truncates
+      | .fin q => if inI64 (truncQ q) then .ok [] [.fin (truncQ q)] else .raises  -- `int(x)` truncates
       | _ => .raises                       -- cannot convert float NaN / infinity to integer
     else .ok [] [f]
   | .npInt i => .ok [] [.fin i]
@@ -458,15 +458,38 @@ def boxTest (b : BoxSp) (dt : DT) (sh : List Nat) (vals : List Flt) : BoxOut :=
 
 def boxDT (b : BoxSp) : DT := if b.isInt then .i64 else .f64
 
+/-- did the conversion of this element to an integer dtype change its value: only a finite float
+that is not whole is altered by `int(x)` (bools, ints and whole floats compare equal afterwards) -/
+def leafChanged : PyVal → Bool
+  | .float (.fin q) => decide (((truncQ q : Int) : Rat) ≠ q)
+  | .npFloat (.fin q) => decide (((truncQ q : Int) : Rat) ≠ q)
+  | _ => false
+
+mutual
+/-- `not np.array_equal(np.asarray(x, dtype=int), np.asarray(x))` for a value whose conversion
+succeeded: some element was changed by the cast (shapes agree, so it is element-wise) -/
+def castChanged : PyVal → Bool
+  | .list l => castChangedL l
+  | .tuple l => castChangedL l
+  | v => leafChanged v
+def castChangedL : List PyVal → Bool
+  | [] => false
+  | v :: vs => castChanged v || castChangedL vs
+end
+
 def boxContains (b : BoxSp) (v : PyVal) : BoxOut :=
   match v with
   | .int i =>                       -- `type(x) is int`: `np.array([x], dtype=int)`
     if inI64 i then boxTest b .i64 [1] [.fin i] else .raises
   | .float f => boxTest b .f64 [1] [f]      -- `type(x) is float`: `np.array([x], dtype=float)`
   | .ndarray dt sh vals => boxTest b dt sh vals
-  | v =>                            -- `np.asarray(x, dtype=self.dtype)`
+  | v =>                            -- `original = x; x = np.asarray(x, dtype=self.dtype)`
     match asArr b.isInt v with
-    | .ok sh vals => boxTest b (boxDT b) sh vals
+    | .ok sh vals =>
+      -- since 9e72b84: `if self.dtype.kind in 'iu' and not np.array_equal(x, np.asarray(original)):
+      --                   return False`
+      if b.isInt && castChanged v then .no
+      else boxTest b (boxDT b) sh vals
     | .raises => .raises
     | .unmodelled => .unmodelled
 
